@@ -264,10 +264,14 @@ impl CommitPipeline {
 
 		// Check write stall BEFORE acquiring any locks.
 		// This ensures stalled writers wait here without blocking others.
+		#[cfg(feature = "verif")]
+		crate::verif::yield_async("commit.pre_stall").await;
 		self.write_stall.check().await?;
 
 		// Acquire permit for flow control
 		let _permit = self.commit_sem.acquire().await.map_err(|_| Error::PipelineStall)?;
+		#[cfg(feature = "verif")]
+		crate::verif::yield_async("commit.post_permit").await;
 
 		let (commit_batch, complete_rx) = CommitBatch::new(batch.count());
 
@@ -302,6 +306,8 @@ impl CommitPipeline {
 
 			let count = batch.count() as u64;
 			let seq_num = self.log_seq_num.fetch_add(count, Ordering::SeqCst);
+			#[cfg(feature = "verif")]
+			crate::verif::note("commit.seq", seq_num, count);
 
 			// Publish the oracle entries with the allocated seq.
 			//
@@ -354,7 +360,11 @@ impl CommitPipeline {
 		// Memtable apply — OUTSIDE write_mutex. The next committer can already
 		// be inside the critical section. This restores the pipeline overlap
 		// that PR #378 destroyed.
+		#[cfg(feature = "verif")]
+		crate::verif::yield_async("commit.post_wal").await;
 		let apply_result = self.env.apply(&processed_batch);
+		#[cfg(feature = "verif")]
+		crate::verif::yield_async("commit.post_apply").await;
 
 		// =========================================================================
 		// Failure-path invariants
@@ -393,8 +403,12 @@ impl CommitPipeline {
 
 		commit_batch.mark_applied();
 
+		#[cfg(feature = "verif")]
+		crate::verif::yield_async("commit.post_mark").await;
 		// Publish (multi-consumer) - MUST always run to drain queue
 		self.publish();
+		#[cfg(feature = "verif")]
+		crate::verif::yield_async("commit.post_publish").await;
 
 		if let Some(err) = apply_err {
 			return Err(err);
